@@ -14,6 +14,9 @@ class IndexType(TypeAttribute):
     def __eq__(self, other):
         return isinstance(other, IndexType)
 
+    def __str__(self):
+        return "index"
+
 
 class FixedBitwidthType(TypeAttribute):
     @property
@@ -57,6 +60,11 @@ class IntegerType(FixedBitwidthType):
     def __eq__(self, other):
         return isinstance(other, IntegerType) and self.width.data == other.width.data
 
+    def __str__(self):
+        """as xdsl prints the type: i32 / si32 / ui32"""
+        pre = "si" if self.signedness == 1 else ("ui" if self.signedness == 2 else "i")
+        return f"{pre}{self.width.data}"
+
 
 class AnyFloat(FixedBitwidthType):
     pass
@@ -69,6 +77,9 @@ class Float32Type(AnyFloat):
 
     def __eq__(self, other):
         return isinstance(other, Float32Type)
+
+    def __str__(self):
+        return "f32"
 
 
 i1 = IntegerType(1)
